@@ -1028,7 +1028,7 @@ public:
       // references of rhs_rgn. Otherwise, a store through one of them
       // is a strong update that wipes out the copied contents.
       region_domain_impl::region_info lhs_rgn_info(rhs_rgn_info);
-      const small_range &old_lhs_refs = m_rgn_env.at(lhs_rgn).refcount_val();
+      const small_range old_lhs_refs = m_rgn_env.at(lhs_rgn).refcount_val();
       if (!old_lhs_refs.is_zero()) {
         if (rhs_rgn_info.refcount_val().is_zero()) {
           lhs_rgn_info.refcount_val() = old_lhs_refs;
